@@ -61,7 +61,7 @@ Print Assumptions C16_rate_limit_event_only_on_refusal.
    Retry(3 retries, 2048 ns) around Bursty(1 per 16384 ns, max wait 10304 ns), caller cancels at 7000 ns:
    refusals at 2048 and 4096 (events), the attempt at 6144 waits, and at 7000 the old code logged a third event. *)
 Theorem C16_rate_limit_event_without_refusal_before_fix :
-  let rc := {| r_fpol := build_fpolicy []; r_abort := []; r_max_retries := 3; r_max_duration := 0; r_return_last := false; r_delay := 2048 |} in
+  let rc := {| r_fpol := build_fpolicy []; r_abort := []; r_max_retries := 3; r_max_duration := 0; r_return_last := false; r_delay := 2048; r_lsn_dur := 0 |} in
   let lim := (Bursty 1 16384, 0, lim_init (Bursty 1 16384)) in
   let script := [ {| fs_out := (0, Some (ESent 0)); fs_dur := 0; fs_coop := None; fs_lag := 0 |} ] in
   let w0 := fresh_world 0 (Some (7000, ECtxCanceled)) CKNone [] [lim] [] [] script in
@@ -102,13 +102,15 @@ Print Assumptions C16_full_event_only_on_refusal.
    after which the retry loop returns without consulting the policy again -- so neither fires twice in one run (stated over
    whole logs by C16_verdict_events_consistent below) *)
 Theorem C16_abort_and_exceeded_events_in_their_situation : forall cfg pos c r w,
+  let w0 := pause (ev_with_result w c KPolFailure pos r) (r_lsn_dur cfg) in    (* OnFailure logged, and its listener has returned *)
   let failed := rs_failed (get_rstate w pos) + 1 in
   let exceeded := (negb (r_max_retries cfg =? -1) && (r_max_retries cfg <? failed))
-                  || (negb (r_max_duration cfg =? 0) && (r_max_duration cfg <? w_now w - w_start w)) in
+                  || (negb (r_max_duration cfg =? 0) && (r_max_duration cfg <? w_now w0 - w_start w0)) in
   let abortable := is_abortable (r_abort cfg) (pr_out r) in
   kps (snd (retry_on_failure cfg pos c r w)) =
     (if exceeded && negb abortable then [(KRetriesExceeded, pos)] else [])
-    ++ (if abortable then [(KAbort, pos)] else []) ++ (KPolFailure, pos) :: kps w
+    ++ (if abortable then [(KAbort, pos)] else []) ++ kps w0
+  /\ (r_lsn_dur cfg <= 0 -> kps w0 = (KPolFailure, pos) :: kps w)
   /\ (abortable || exceeded = true -> pr_done (fst (retry_on_failure cfg pos c r w)) = true)
   /\ rs_exceeded (get_rstate (snd (retry_on_failure cfg pos c r w)) pos) = exceeded.
 Proof. exact retry_failure_events. Qed.
